@@ -546,14 +546,25 @@ class TextXVisitor(RRELVisitor):
                                 # stop after first added/found type
                                 return True
                         else:
+                            if isinstance(rule, (And, Not)) or rule.suppress:
+                                # Predicates and suppressed matches never
+                                # yield an object.
+                                return False
                             is_ordered_choice = isinstance(rule, OrderedChoice)
                             inh_added = False
                             for r in rule.nodes:
-                                inh_added |= _add_reffered_classes(r, inh_by)
-                                if inh_added and not is_ordered_choice:
+                                added = _add_reffered_classes(r, inh_by)
+                                inh_added |= added
+                                if (
+                                    added
+                                    and not is_ordered_choice
+                                    and not isinstance(r, (Optional, ZeroOrMore))
+                                ):
                                     # If not ordered choice we should get out
                                     # early as the rest of the rule shouldn't
-                                    # influence the inheritance hierarchy.
+                                    # influence the inheritance hierarchy. An
+                                    # optional part may match nothing: then
+                                    # what follows yields the object.
                                     break
                             return inh_added
                         return False
